@@ -12,6 +12,10 @@
 (*          ("nb") or weight ("w") handle; obs = returned matrix (weights  *)
 (*          in quanta), tell = line position of the handle afterwards.     *)
 (*          The cursor is a variable of this specification.                *)
+(*  files_ref  the files cal_neighbors wrote for the ONE-frame trajectory  *)
+(*          holding frame k of the session's trajectory: the lines of     *)
+(*          frame k in the trajectory's files must agree (FrameLocal) -   *)
+(*          the tessellation of a frame depends on that frame alone.      *)
 (*  vm_ref  VolumeMatrix on a ONE-frame trajectory holding frame k (index  *)
 (*          0), raw (tr = 0) or transformed (tr = 1) -> remembered.        *)
 (*  vm      VolumeMatrix(all frames, nconfig = k): must have the right     *)
@@ -54,8 +58,15 @@ WhyVm(rec) ==
       ELSE IF rec.tr = 0 /\ ~SomeResponse(rec.obs, fs, f, d, SupportTol) THEN "RequestedFrame:NoResponse"
       ELSE ""
 
+WhyRef(rec) ==
+  IF rec.k + 1 \notin Frames(fs) THEN "UnknownFrame"
+  ELSE IF ~Layout(rec.fs) \/ NF(rec.fs) # 1 THEN "Layout"
+  ELSE IF ~FrameLocalAt(fs, rec.k + 1, rec.fs) THEN "FrameLocal"
+  ELSE ""
+
 Why(rec) ==
   IF rec.op = "files" THEN WhyFilesT(rec.fs, rec.tolerate)
+  ELSE IF rec.op = "files_ref" THEN WhyRef(rec)
   ELSE IF rec.op = "read" THEN WhyRead(rec)
   ELSE IF rec.op \in {"vm", "vm_ref"} THEN WhyVm(rec)
   ELSE "UnknownOp"
